@@ -204,7 +204,8 @@ class Check:
         meta = os.path.join(self.work, "tlc-" + tag)
         shutil.rmtree(meta, ignore_errors=True)
         out_path = os.path.join(self.work, tag + ".out")
-        jopts = f"-Xss1g -Xmx{xmx}"
+        libs = ":".join(os.path.join(SPEC, d) for d in sorted(os.listdir(SPEC)) if os.path.isdir(os.path.join(SPEC, d)))
+        jopts = f"-Xss1g -Xmx{xmx} -DTLA-Library={libs}"
         if deque:
             jopts += " -Dtlc2.tool.queue.IStateQueue=StateDeque"
         e = dict(os.environ)
